@@ -540,19 +540,6 @@ func c03Mutators() []mutator {
 			resignExit(m, e, m.sp.ComputeDomain(refspec.DOMAIN_VOLUNTARY_EXIT, m.pre.ForkData.CurrentVersion, m.pre.GenesisValidatorsRoot))
 			return true
 		}),
-		exit("not-yet-active-long-enough", func(m *mutCtx, e *refspec.SignedVoluntaryExit, b *refspec.SignedBlock) bool {
-			// find a validator too young
-			cur := m.sp.CurrentEpoch(m.pre)
-			for i := range m.pre.Validators {
-				v := &m.pre.Validators[i]
-				if refspec.IsActive(v, cur) && cur < v.ActivationEpoch+m.sp.SHARD_COMMITTEE_PERIOD {
-					e.Message.ValidatorIndex = uint64(i)
-					resignExit(m, e, exitDomain(m, e.Message.Epoch))
-					return true
-				}
-			}
-			return false
-		}),
 	)
 	muts = append(muts, mutator{"exit/added-for-a-validator-not-active-long-enough", false, func(m *mutCtx, b *refspec.SignedBlock) bool {
 		// an otherwise valid, correctly signed exit of a validator younger than SHARD_COMMITTEE_PERIOD, appended to the block
